@@ -224,7 +224,7 @@ pub fn run(cfg: &Cfg, rep: &mut Report) {
     run_cases(cfg, "channel", cfg.n(640, 4_800_000, 96_000_000), rep, |rng, ctx| {
         bump(ctx, 1);
         let allow_path = rng.bool();
-        let mx = if rng.chance(1, 10) { 21 } else { 5 };
+        let mx = if rng.chance(1, 100) && !ctx.cfg.tiny { 400 } else if rng.chance(1, 10) { 21 } else { 5 };
         let n = rng.usize(mx);
         let mut entries = vec![];
         let mut texts: Vec<Vec<u8>> = vec![];
@@ -357,7 +357,7 @@ pub fn run(cfg: &Cfg, rep: &mut Report) {
     // ---------------- numeric lists
     run_cases(cfg, "numeric", cfg.n(640, 4_800_000, 96_000_000), rep, |rng, ctx| {
         bump(ctx, 1);
-        let mx = if rng.chance(1, 10) { 21 } else { 5 };
+        let mx = if rng.chance(1, 100) && !ctx.cfg.tiny { 400 } else if rng.chance(1, 10) { 21 } else { 5 };
         let n = rng.usize(mx);
         let mut entries = vec![];
         let mut texts: Vec<Vec<u8>> = vec![];
